@@ -318,9 +318,9 @@ Definition rfc_ref_decode_block (hd : list N -> option (list N)) (L : nat) (rs :
      3  the dynamic table afterwards differs (entries or size)
      4  the dynamic table is larger than the protocol's limit after an accepted block
      5  accepted although a required size update (4.2) is missing
-     6  like 1, but the only objection is the placement of a size update: the same octets are
-        accepted, with the same headers and table, when size updates are allowed between header
-        fields ([ref_block_anywhere])
+     6  like 1, but the only objection is the placement of a size update after a header field
+        where a fragment boundary falls on or inside that size update: with those tolerated
+        ([ref_block_excused]) the octets are accepted with the same headers and table
    The history is judged up to the first block the implementation rejected (rejecting is always
    allowed by the property; the connection is dead afterwards). *)
 
@@ -339,13 +339,17 @@ Fixpoint hd_recorded (tbl : list (list N * option (list N))) (raw : list N) : op
   | (k, r) :: tbl' => if list_N_eqb k raw then r else hd_recorded tbl' raw
   end.
 
-(* one block: limits acknowledged before it (in order), octets, accepted?, headers,
-   table entries (None = not recorded), table size *)
+(* one block: limits acknowledged before it (in order), octets, offsets of the fragment
+   boundaries, accepted?, headers, table entries (None = not recorded), table size *)
 Definition oracle_block : Type :=
-  (list N * list N * bool * list field * option (list field) * N)%type.
+  (list N * list N * list N * bool * list field * option (list field) * N)%type.
 
-(* the grammar with the placement rule of 6.3 dropped (used only to classify objections) *)
-Fixpoint ref_block_anywhere (hd : list N -> option (list N)) (L : nat) (limit : N) (fuel : nat)
+(* The grammar with the placement rule of 6.3 relaxed (used only to classify objections): a size
+   update after a header field is tolerated when one of the fragment boundaries [bounds] (offsets
+   into the block) falls on or inside its encoding, i.e. when it is the first representation a
+   decoder meets after resuming with the next fragment. *)
+Fixpoint ref_block_excused (hd : list N -> option (list N)) (L : nat) (limit : N) (fuel : nat)
+  (seen_field : bool) (pos : N) (bounds : list N)
   (dyn : list field) (max : N) (bs : list N) : option (list field * list field * N) :=
   match bs with
   | [] => Some ([], dyn, max)
@@ -354,11 +358,16 @@ Fixpoint ref_block_anywhere (hd : list N -> option (list N)) (L : nat) (limit : 
     | O => None
     | S fuel' =>
       match ref_update_step L limit bs with
-      | Some (n, rest) => ref_block_anywhere hd L limit fuel' (evict_to n dyn) n rest
+      | Some (n, rest) =>
+        let len := lenN bs - lenN rest in
+        if seen_field && negb (existsb (fun o => (pos <=? o) && (o <? pos + len)) bounds)
+        then None
+        else ref_block_excused hd L limit fuel' seen_field (pos + len) bounds (evict_to n dyn) n rest
       | None =>
         match ref_field_step hd L max dyn bs with
         | Some (f, dyn1, rest) =>
-          match ref_block_anywhere hd L limit fuel' dyn1 max rest with
+          match ref_block_excused hd L limit fuel' true (pos + (lenN bs - lenN rest)) bounds
+                                  dyn1 max rest with
           | Some (fs, d, m) => Some (f :: fs, d, m)
           | None => None
           end
@@ -378,13 +387,14 @@ Fixpoint oracle_history (hd : list N -> option (list N)) (L : nat) (rs : rstate)
   (blocks : list oracle_block) : N :=
   match blocks with
   | [] => 0
-  | (queued, bs, accepted, fs, entries, tsize) :: more =>
+  | (queued, bs, bounds, accepted, fs, entries, tsize) :: more =>
     if negb accepted then 0
     else
       let rs1 := last_limit rs queued in
       match ref_decode_block hd L rs1 bs with
       | None =>
-        match ref_block_anywhere hd L (r_limit rs1) (length bs) (r_dyn rs1) (r_max rs1) bs with
+        match ref_block_excused hd L (r_limit rs1) (length bs) false 0 bounds
+                                (r_dyn rs1) (r_max rs1) bs with
         | Some (rfs, dyn2, _) =>
           if fields_eq rfs fs
              && match entries with Some es => fields_eq dyn2 es | None => true end
